@@ -168,6 +168,7 @@ type Node struct {
 	// spelling choices
 	Implicit bool // KAnd written as juxtaposition
 	EqSign   bool // KField written with = instead of :
+	Mixed    int  // KRange with Incl == false written with unlike brackets: 1 = [ … }, 2 = { … ] (both mean exclusive)
 }
 
 // constructors
@@ -274,6 +275,8 @@ func (n *Node) Skeleton() string {
 		b := "{"
 		if n.Incl {
 			b = "["
+		} else if n.Mixed != 0 {
+			b = "m" + strconv.Itoa(n.Mixed)
 		}
 		return "r" + b + strconv.Itoa(int(n.Lo.Kind)) + strconv.Itoa(int(n.Hi.Kind))
 	case KList:
@@ -527,6 +530,10 @@ func (p *printer) bare(n *Node) string {
 		o, c := "{", "}"
 		if n.Incl {
 			o, c = "[", "]"
+		} else if n.Mixed == 1 {
+			o, c = "[", "}"
+		} else if n.Mixed == 2 {
+			o, c = "{", "]"
 		}
 		return n.Field.Text + p.osp() + ":" + p.osp() + o + p.osp() + n.Lo.Text + p.sp() + p.kw("TO") + p.sp() + n.Hi.Text + p.osp() + c
 	case KList:
